@@ -312,7 +312,7 @@ var propStreams = map[string][]string{
 	"C04": {"BUILDER"},
 	"C05": {"COMMIT"},
 	"C06": {"BUILDER", "BHIST"},
-	"C07": {"BUILDER"},
+	"C07": {"BUILDER", "BHIST"},
 	"C08": {"SPARSE"},
 	"C09": {"COMPACT", "CHIST"},
 	"C10": {"SHARE", "COMPACT", "SPARSE"},
